@@ -40,6 +40,7 @@ type c01State struct {
 	bal  map[string]int64 // "account/denom" -> ledger
 	outs [2][]c01Out
 	b2   bool // bridge 2 exists
+	b3   bool // bridge 3 exists (created after bridge 2; nothing else is ever addressed to it)
 	rot  [2][2]bool
 }
 
@@ -134,7 +135,7 @@ func (y *c01Sys) Digest(s *c01State) [32]byte { return s.w.Digest(s.ctx) }
 
 func (y *c01Sys) Letters(s *c01State) []engine.Letter {
 	var ls []engine.Letter
-	if !s.b2 {
+	if !s.b3 {
 		ls = append(ls, engine.Letter{Name: "CreateBridge", Data: c01Create{}})
 	}
 	for _, b := range []uint64{1, 2, 9} {
@@ -198,7 +199,7 @@ func (s *c01State) bridgeSlice(ctx sdk.Context, id uint64) []byte {
 
 func (y *c01Sys) Step(s *c01State, l engine.Letter) (*c01State, string, *engine.Violation) {
 	ctx, _ := s.ctx.CacheContext()
-	c := &c01State{ctx: ctx, w: s.w, sys: y, bal: s.bal, outs: s.outs, b2: s.b2, rot: s.rot}
+	c := &c01State{ctx: ctx, w: s.w, sys: y, bal: s.bal, outs: s.outs, b2: s.b2, b3: s.b3, rot: s.rot}
 	nb := func() map[string]int64 {
 		m := make(map[string]int64, len(s.bal))
 		for k, v := range s.bal {
@@ -208,8 +209,8 @@ func (y *c01Sys) Step(s *c01State, l engine.Letter) (*c01State, string, *engine.
 		return m
 	}
 	before := s.w.Digest(s.ctx)
-	var slices [3][]byte
-	ids := []uint64{1, 2, 9}
+	var slices [4][]byte
+	ids := []uint64{1, 2, 3, 9}
 	for i, id := range ids {
 		slices[i] = s.bridgeSlice(s.ctx, id)
 	}
@@ -231,7 +232,16 @@ func (y *c01Sys) Step(s *c01State, l engine.Letter) (*c01State, string, *engine.
 	case c01Create:
 		res = s.w.Deliver(ctx, ophosttypes.NewMsgCreateBridge(world.Addr("creator").String(), world.BridgeConfig("proposer", "challenger", c01Period)))
 		addressed = 2
+		if s.b2 {
+			addressed = 3 // the second creation makes bridge 3 and leaves bridge 2 as it is
+		}
 		if res.OK() {
+			if r, ok := res.Resp.(*ophosttypes.MsgCreateBridgeResponse); !ok || r.BridgeId != addressed {
+				return c, "accepted", viol("operation-on-one-bridge-leaves-others-untouched", "the bridge created after %d bridges got id %v, expected %d", addressed-1, res.Resp, addressed)
+			}
+			if s.b2 {
+				c.b3 = true
+			}
 			c.b2 = true
 			if y.fee {
 				m := nb()
@@ -408,6 +418,9 @@ func init() {
 			res := engine.NewResult()
 			for i, fee := range []bool{false, true} {
 				o := opts(rc, pick(rc, 5, 7))
+				if fee {
+					o = opts(rc, pick(rc, 4, 6)) // the fee only matters at creation: one level less
+				}
 				o.Deadline = rc.Start.Add(rc.Budget * time.Duration(i+1) / 2)
 				name := fmt.Sprintf("fee=%v", fee)
 				sys := newC01Sys(fee)
@@ -423,7 +436,7 @@ func init() {
 					res.Require(res.OutcomeCount(name, k) > 0, "%s: outcome %s never occurred", name, k)
 				}
 			}
-			res.Coverage["alphabet"] = "CreateBridge(2); Deposit(b∈{1,2,9}, denom∈{uxx,uyy}, amt∈{1,2}) + zero amount + unfunded sender; Propose(b, root∈{own tree, other bridge's tree}); Delete(b,1); Advance(period); Finalize(b, leaf∈{own w1, own w2, other bridge's w1}, by∈{bob,stranger}); BankSend(stranger→escrow of bridge 1, of bridge 2 (before and after its creation) and of the never-created bridge 9); UpdateProposer/UpdateChallenger(b); configuration axis: registration fee ∈ {none, 1uxx}"
+			res.Coverage["alphabet"] = "CreateBridge (twice: ids 2 and 3); Deposit(b∈{1,2,9}, denom∈{uxx,uyy}, amt∈{1,2}) + zero amount + unfunded sender; Propose(b, root∈{own tree, other bridge's tree}); Delete(b,1); Advance(period); Finalize(b, leaf∈{own w1, own w2, other bridge's w1}, by∈{bob,stranger}); BankSend(stranger→escrow of bridge 1, of bridge 2 (before and after its creation) and of the never-created bridge 9); UpdateProposer/UpdateChallenger(b); configuration axis: registration fee ∈ {none, 1uxx}"
 			res.Coverage["oracle"] = "ledger model of all account balances compared after every transition (and supply = sum of known accounts); records+escrow of every non-addressed bridge byte-identical; escrow decreases only by a successful finalize of the same bridge whose leaf belongs to that bridge's tree; rejected ⇒ digest unchanged (incl. under-funded escrow); in every state with a final output, every leaf claimed with amount+1, amount+2^64 and 2^64 against an escrow topped up to cover it is refused"
 			res.Assumptions = []string{"two trees with identical user fields that differ only in the bridge id", "bridge id 9 is never created"}
 			return res
